@@ -45,3 +45,96 @@ Definition lstep (s : lsys) (l : llabel) : option lsys :=
   end.
 
 Definition linit : lsys := mkL 0 false [].
+
+(* ---- harness entry point (engine listenerclose) -------------------------------------------
+   The engine drives the real tnet wrapper over a scripted underlying listener that follows the
+   assumption above: an underlying Accept that begins after the underlying Close fails at once,
+   one that began before parks until the script lets it return (a connection or an error, also
+   after the underlying Close).  Every Accept / Close call is its own goroutine = model thread
+   (thread id = number of calls made before it).
+   case:  nops (op a)*
+     op 0: a goroutine calls Accept and runs until it is parked inside the underlying Accept
+           (LA1, LA2) -- or, when the underlying listener was already closed, to its end
+     op 1: the parked Accept of thread a returns a connection;  op 2: it returns an error
+           (LA3, LA4; -1 when thread a is not a parked Accept)
+     op 3: a goroutine calls Close (LK1)
+     op 4: the connection accepted by thread a is closed (no effect on the listener)
+   After every op the Close calls waiting for refs = 0 return if they can (LK2), then the
+   observation:  code refs underlying-closed #parked-accepts #accepts-returned-conn
+                 #accepts-returned-error #closes-blocked #closes-returned-nil #closes-returned-error *)
+Fixpoint lsettle_from (fuel : nat) (i : nat) (s : lsys) : lsys :=
+  match fuel with
+  | O => s
+  | S f =>
+      let s' := match nth_error (lthr s) i with
+                | Some LK2 => match lstep s (LRunL i true) with Some s1 => s1 | None => s end
+                | _ => s
+                end in
+      lsettle_from f (S i) s'
+  end.
+Definition lsettle (s : lsys) : lsys := lsettle_from (length (lthr s)) 0 s.
+
+Definition lrun2 (s : lsys) (tid : nat) (ok : bool) : option lsys :=
+  match lstep s (LRunL tid ok) with
+  | Some s1 => lstep s1 (LRunL tid ok)
+  | None => None
+  end.
+
+Definition lop (s : lsys) (op a : Z) : lsys * Z :=
+  if op =? 0 then
+    let tid := length (lthr s) in
+    match lstep s LAccept with
+    | Some s1 =>
+        match lrun2 s1 tid true with
+        | Some s2 =>
+            match nth_error (lthr s2) tid with
+            | Some (LA3 false) => match lrun2 s2 tid false with Some s3 => (s3, 0) | None => (s, -1) end
+            | _ => (s2, 0)
+            end
+        | None => (s, -1)
+        end
+    | None => (s, -1)
+    end
+  else if (op =? 1) || (op =? 2) then
+    let tid := Z.to_nat a in
+    match nth_error (lthr s) tid with
+    | Some (LA3 _) => match lrun2 s tid (op =? 1) with Some s1 => (s1, 0) | None => (s, -1) end
+    | _ => (s, -1)
+    end
+  else if op =? 3 then
+    let tid := length (lthr s) in
+    match lstep s LCloseL with
+    | Some s1 => match lstep s1 (LRunL tid true) with Some s2 => (s2, 0) | None => (s, -1) end
+    | None => (s, -1)
+    end
+  else (s, 0).
+
+Definition lcount (f : lpc -> bool) (s : lsys) : Z := Z.of_nat (count_if f (lthr s)).
+
+Definition lobs (s : lsys) (code : Z) : list Z :=
+  [code; refs s; (if lclosed s then 1 else 0);
+   lcount (fun p => match p with LA3 _ => true | _ => false end) s;
+   lcount (fun p => match p with LADone true => true | _ => false end) s;
+   lcount (fun p => match p with LADone false => true | _ => false end) s;
+   lcount (fun p => match p with LK2 => true | _ => false end) s;
+   lcount (fun p => match p with LKDone true => true | _ => false end) s;
+   lcount (fun p => match p with LKDone false => true | _ => false end) s].
+
+Fixpoint lrun_ops (n : nat) (s : lsys) (l : list Z) : list Z :=
+  match n with
+  | O => []
+  | S n' =>
+      match l with
+      | op :: a :: r =>
+          let '(s1, code) := lop s op a in
+          let s2 := lsettle s1 in
+          lobs s2 code ++ lrun_ops n' s2 r
+      | _ => [-9]
+      end
+  end.
+
+Definition run_listenerclose (c : list Z) : list Z :=
+  match c with
+  | nops :: r => lrun_ops (Z.to_nat nops) linit r
+  | _ => [-9]
+  end.
